@@ -88,13 +88,17 @@ class LiteralToken(RegexpBaseToken):
         super().__init__(*args, *kwargs)
 
         if self.value[2]:
-            real_value = int(self.value[2])
-            if self.value[5]:
-                real_value += float(f'0.{self.value[5]}')
-            if self.value[7]:
-                # TODO in theory, the degree can be calculated using the expression
-                real_value *= 10 ** int(self.value[7])
-            real_value = str(real_value)
+            if self.value[5] or self.value[7]:
+                # the double nearest to the decimal text (summing the integer part, the fraction and a power of ten
+                # separately rounds up to three times: 1.1e-1 became 0.11000000000000001)
+                real_value = float(f"{self.value[2]}.{self.value[5] or '0'}e{self.value[7] or '0'}")
+                if real_value in (float('inf'), float('-inf')):
+                    raise E2PyclParserException('The number is too large')
+                if real_value.is_integer() and abs(real_value) < 2 ** 53:
+                    real_value = int(real_value)
+                real_value = repr(real_value)
+            else:
+                real_value = str(int(self.value[2]))
         elif self.value[1] or self.value[0] == '""':
             # repr(): whatever characters the text contains (quotes, backslashes, line breaks), the generated code holds
             # them as inert string data that evaluates to exactly the original text
